@@ -35,6 +35,10 @@ RULE = (
     "block / tablerow / for, nested in an enclosing for or tablerow and followed on the same context by "
     "the rest of the iteration, later outer iterations, sibling nests sized close to the program's largest "
     "product of lengths, tablerow, partials included / rendered afterwards and macros, "
+    "(a'') nests whose inner loop length depends on the outer iteration (n: i, n: forloop.index, (1..i), "
+    "n | times: k, data sliced by limit: i, partial reached only on late iterations) across render, render-for, "
+    "call, overridden block, block.super, include, include-for; out-profile text and data also draw lone "
+    "surrogates, astral characters, combining marks, NUL and U+FFFF (bytes counted with surrogatepass), "
     "(b) programs of the shared grammar-directed "
     "generator, (c) cyclic graphs of <= 4 templates over include / render / extends / macro / block / "
     "capture / for / tablerow edges, (d) acyclic partial chains of depth 1..7. Each program is "
@@ -526,6 +530,10 @@ def check_case(rn: Runner, case: dict[str, Any], rng: random.Random, kinds: tupl
             ctx.count("programs_with_cr_output")
         if len(f.U) != f.Ub:
             ctx.count("programs_with_multibyte_output")
+        if any(0xD800 <= ord(ch) <= 0xDFFF for ch in f.U):
+            ctx.count("programs_with_lone_surrogate_output")
+        if any(ord(ch) > 0xFFFF or ch in "\x00\uffff\u0301" for ch in f.U):
+            ctx.count("programs_with_astral_nul_or_combining_output")
         for k in f.res.mon.max_chain_kinds if f.res.mon else ():
             ctx.seen("nest_constructs", k)
         if f.interrupted:
@@ -625,10 +633,10 @@ def minimise(rn: Runner, prog: dict[str, Any], cls: str, ex: dict[str, Any]):
 def shards(tier: str, seed: int) -> list[dict[str, Any]]:
     # (kind, number of shards, cases per shard); thorough = 20 x the quick volume
     if tier == "quick":
-        plan = [("nest", 12, 52), ("ns", 6, 30), ("out", 6, 30), ("intr", 4, 45), ("shared", 2, 90), ("cycle", 2, 260),
-                ("chain", 2, 170)]
+        plan = [("nest", 12, 52), ("ns", 6, 30), ("out", 6, 30), ("intr", 4, 45), ("vary", 2, 55), ("shared", 2, 90),
+                ("cycle", 2, 220), ("chain", 2, 160)]
     else:
-        plan = [("nest", 24, 580), ("ns", 6, 640), ("out", 6, 640), ("intr", 6, 600), ("shared", 4, 900),
+        plan = [("nest", 24, 580), ("ns", 6, 640), ("out", 6, 640), ("intr", 6, 600), ("vary", 4, 550), ("shared", 4, 900),
                 ("cycle", 4, 2600), ("chain", 4, 1700)]
     specs: list[dict[str, Any]] = []
     for kind, n, per in plan:
@@ -649,6 +657,8 @@ def floors(tier: str) -> dict[str, int]:
         "cross_partial_nests": 100 * k,
         "programs_with_interrupted_include_loop": 60 * k,
         "intr_loop_limit_at_product_ok": 100 * k,
+        "vary_nests_with_growing_inner": 60 * k,
+        "programs_with_lone_surrogate_output": 30 * k,
         "cycles_terminated": 400 * k,
         "write_hook_hits": 10_000 * k,
         "assign_hook_hits": 5_000 * k,
@@ -667,6 +677,8 @@ def run_shard(spec: dict[str, Any], ctx: Ctx) -> None:
             _nests(rn, spec, kind)
         elif kind == "intr":
             _interrupts(rn, spec)
+        elif kind == "vary":
+            _varying(rn, spec)
         elif kind == "shared":
             _shared(rn, spec)
         elif kind == "cycle":
@@ -683,7 +695,8 @@ def _nests(rn: Runner, spec: dict[str, Any], profile: str) -> None:
     ctx = rn.ctx
     for j in range(spec["per"]):
         rng = random.Random(f"{spec['seed']}:{profile}:{spec['i']}:{j}")
-        g = G.NestGen(rng, profile, cr=rng.random() < 0.7, allow_break=rng.random() < 0.5)
+        g = G.NestGen(rng, profile, cr=rng.random() < 0.7, allow_break=rng.random() < 0.5,
+                      awkward=profile == "out" and rng.random() < 0.6)
         prog = g.program()
         case = G.emit(prog)
         case["marks"] = True
@@ -719,6 +732,34 @@ def _interrupts(rn: Runner, spec: dict[str, Any]) -> None:
         if j % 23 == 0:
             ctx.sample({"kind": "intr", "root": case["root"], "partials": case["partials"], "data": case["data"],
                         "unrestricted": {"nest_count": f.C, "product": f.M, "left_early": sorted(set(f.interrupted))}})
+
+
+def _varying(rn: Runner, spec: dict[str, Any]) -> None:
+    """Nests whose inner length depends on the outer iteration, across every boundary that
+    copies the context (see c06_gen.VaryGen).  The online count of executed bodies per
+    nest decides; L = C-1 is always among the limits."""
+    ctx = rn.ctx
+    for j in range(spec["per"]):
+        rng = random.Random(f"{spec['seed']}:vary:{spec['i']}:{j}")
+        prog = G.VaryGen(rng).program()
+        case = G.emit(prog)
+        case["marks"] = True
+        found = check_case(rn, case, rng, kinds=("huge", "loop"), modes=("sync", "async") if j % 2 == 0 else ("sync",))
+        if found is None:
+            continue
+        ctx.count("vary_programs")
+        f = Facts(rn, case)
+        if f.ok and f.M > f.C >= 2:
+            # the executed count of the largest nest is below the product of lengths: the
+            # inner length is not the same in every outer iteration
+            ctx.count("vary_nests_with_growing_inner")
+            for k in (f.res.mon.max_chain_kinds if f.res.mon else ()):
+                ctx.seen("vary_boundaries", k)
+        if found:
+            report(rn, prog, case, found, [str(spec["seed"]), "vary", spec["i"], j])
+        if j % 27 == 0:
+            ctx.sample({"kind": "vary", "root": case["root"], "partials": case["partials"], "data": case["data"],
+                        "unrestricted": {"nest_count": f.C, "product": f.M}})
 
 
 def _shared(rn: Runner, spec: dict[str, Any]) -> None:
